@@ -19,19 +19,25 @@ from .common import cfg_consts
 from . import c01
 
 SAFE_WRITES = {"set", "fset", "del", "pdel", "drop", "expire", "persist", "jset", "jdel", "sethook", "delhook", "pdelhook", "flushdb"}
+KS_KEYS = ["alpha", "bravo key", "charlie\"q"]     # harness/ks/tokens.go Keys[0:3]: the filler collections are <key>-f-NN
 CRASH_POINTS = ["shrink.final.flushed", "shrink.final.written", "shrink.final.closed", "shrink.final.renamed1",
                 "shrink.final.renamed2", "shrink.final.reopened"]
 
 
 def design(ctx):
     base = dict(NKeys=3, NIds=2, MaxKeys=2, MaxIds=1)
+    small = dict(NKeys=2, NIds=2, MaxKeys=1, MaxIds=1)
     tot = gen = 0
-    runs = [("shr_safe", 2, '{"set", "del", "drop"}', True, None),
-            ("shr_rename", 1, '{"rename"}', True, "any"),
-            ("shr_append", 1, '{"append"}', True, "any"),
-            ("shr_nobak", 1, '{"set"}', False, "CrashRecoverable")]
-    for name, mw, ops, bak, expect in runs:
-        cfg = "SPECIFICATION Spec\n" + cfg_consts(MaxWrites=mw, WriterOps="raw:" + ops, RecoverBak=bak, **base) + \
+    # (name, constants, MaxWrites, writer ops, RecoverBak, process lifetimes, TruncNew, expected violation)
+    runs = [("shr_safe", base, 2, '{"set", "del", "drop"}', True, 1, True, None),
+            ("shr_rounds", small, 2, '{"set", "del", "drop"}', True, 2, True, None),      # kill, restart, write, shrink again
+            ("shr_rename", base, 1, '{"rename"}', True, 1, True, "any"),
+            ("shr_append", base, 1, '{"append"}', True, 1, True, "any"),
+            ("shr_nobak", base, 1, '{"set"}', False, 1, True, "CrashRecoverable"),
+            ("shr_notrunc", small, 2, '{"set", "del", "drop"}', True, 2, False, "any")]   # leftover rewrite target not truncated
+    for name, consts, mw, ops, bak, rounds, trunc, expect in runs:
+        cfg = "SPECIFICATION Spec\n" + cfg_consts(MaxWrites=mw, WriterOps="raw:" + ops, RecoverBak=bak, MaxRounds=rounds,
+                                                  TruncNew=trunc, **consts) + \
               "INVARIANT ShrunkEquivalent CrashRecoverable LiveLogAlwaysGood\n"
         r = ctx.tlc(name, ["Shrink.tla"], "---- MODULE MC_%s ----\nEXTENDS Shrink\n====\n" % name, cfg, timeout=900,
                     expect_violation=expect is not None)
@@ -40,9 +46,10 @@ def design(ctx):
         if expect is not None and r["violated"] is None:
             raise common.Infra("Shrink design (%s): the deviation is not detected (vacuous)" % name)
         if expect is None:
-            tot, gen = r["distinct"], r["generated"]
-    ctx.log("TLC Shrink: writers {set, del, drop} x every interleaving and kill point: %d states, all invariants hold; "
-            "RENAME, non-idempotent append and the swap without -bak recovery are refuted" % tot)
+            tot, gen = tot + r["distinct"], gen + r["generated"]
+    ctx.log("TLC Shrink: writers {set, del, drop} x every interleaving and kill point, and a second process lifetime (restart, "
+            "writes, second rewrite) after every kill: %d states, all invariants hold; RENAME, non-idempotent append, the swap "
+            "without -bak recovery and a rewrite target that is not truncated are refuted" % tot)
     return tot, gen
 
 
@@ -63,7 +70,12 @@ def make_cases(beh_file, out_file, rng, quick):
             if kind == 0 or (kind == 2 and not ren):
                 case = {"init": init, "during": during(safe), "crash": "", "cls": "safe"}
             elif kind == 1:
-                case = {"init": init, "during": during(safe), "crash": CRASH_POINTS[(bi // 3) % len(CRASH_POINTS)], "cls": "safe"}
+                # second process lifetime after the kill: TLC's deleting commands (the dataset gets smaller), a complete
+                # rewrite, one more write, restart
+                dels = [c for c in cmds if c["op"] in ("del", "pdel", "drop")][-3:]
+                r2raw = [["DROP", "%s-f-%02d" % (ks_key, i)] for ks_key in KS_KEYS for i in range(1, 9)] if (bi // 3) % 2 == 0 else []
+                case = {"init": init, "during": during(safe), "crash": CRASH_POINTS[(bi // 3) % len(CRASH_POINTS)], "cls": "safe",
+                        "round2": dels, "round2raw": r2raw}
             else:
                 case = {"init": init, "during": during(ren), "crash": "", "cls": "rename"}
             o.write(json.dumps(case) + "\n")
@@ -91,7 +103,7 @@ def run_cases(ctx, cases_file, label):
     ctx.log("%s: %d cases, %d commands issued while the rewrite was parked, %d key-batch and %d id-batch gates, %d restarts on "
             "rewritten logs, %d crash-point restarts, %d mismatches" % (label, st.get("cases", 0), st.get("issued", 0),
             st.get("gates_keys", 0), st.get("gates_ids", 0), st.get("restarts", 0), st.get("crash_restarts", 0),
-            len(js.get("mismatches") or [])))
+            len(js.get("mismatches") or [])) + "; %d second process lifetimes (restart, writes, second rewrite, restart)" % st.get("round2", 0))
     cases = open(cases_file).read().split("\n")
     groups = {}
     for m in js.get("mismatches") or []:
@@ -133,6 +145,7 @@ def run(ctx):
         "traces_validated_against_impl": st.get("cases", 0),
         "commands_interleaved_with_the_rewrite": st.get("issued", 0),
         "restarts_on_rewritten_logs": st.get("restarts", 0), "crash_point_restarts": st.get("crash_restarts", 0),
+        "second_process_lifetimes_after_a_kill": st.get("round2", 0),
         "samples": [sample],
         "explanation": "Design: TLC explores every interleaving of the batched rewrite with a writer and every kill point. "
                        "Conformance: gates park the real rewrite between batches while commands run; crash points copy the data "
